@@ -1,7 +1,7 @@
 (* C05 — new proposals bind to the latest block f+1 oracles share and are kept once.
    Property theorems only; proofs live in Proofs/{Proposals,Surfaced,Outcome}Proofs.v. *)
 From Verif Require Import Base.Util Model.Types Model.Outcome Model.Validate Model.OutcomeCase
-  Proofs.ProposalsProofs Proofs.SurfacedProofs Proofs.OutcomeProofs Gen.Generated.
+  Proofs.ProposalsProofs Proofs.SurfacedProofs Proofs.OutcomeProofs Proofs.K05Proofs Gen.Generated.
 Open Scope N_scope.
 
 (* The block a new round is stamped with: listed by >= tb valid observations (distinct oracles), and
@@ -117,6 +117,19 @@ Proof.
   split; [left; reflexivity|]. split; [lia|]. vm_compute. reflexivity.
 Qed.
 Print Assumptions C05_zero_hash_block_refuted.
+
+(* The boolean checker applied to the implementation's observed outcome decides the property clauses:
+   once / disjoint from agreed / <= histL rounds / <= perRound per round, and either (no new round, and
+   no supported block with a non-zero hash) or (a new round stamped with ONE supported non-zero-hash
+   block, nothing supported is higher, the rest is the carried history with the oldest round dropped when
+   full, every new proposal was proposed this round, every proposed unit is surfaced / already in
+   history / agreed / cut by the cap behind proposals that sort strictly before it). *)
+Theorem C05_checker_sound :
+  forall (shuf : N -> N) strict thr histL perRound obs agreed prev out,
+    K05_with strict thr histL perRound shuf obs agreed prev out = true ->
+    C05_spec shuf strict thr histL perRound obs agreed prev out.
+Proof. exact K05_with_sound. Qed.
+Print Assumptions C05_checker_sound.
 
 Theorem C05_gen_limits :
   QuorumBlocksAdd = 1%Z /\ OutcomeSurfacedProposalsRoundHistoryLimit = 20%Z /\ OutcomeSurfacedProposalsLimit = 50%Z.
